@@ -40,7 +40,11 @@ func neutralise(name string, c *Case) (*Case, bool) {
 	panic(infraError{"unknown neutraliser " + name})
 }
 
-func isExoticName(n string) bool { return nameClass(n) != "plain-name" }
+// isExoticName selects the names the open finding "names needing escaping" is about. After the repairs a003d7e and
+// bd6abef, names with spaces, unicode, '?', brackets and braces flatten correctly on the unchanged tree (measured per
+// name class); what still fails are names containing a JSON-pointer or URI-fragment metacharacter. The neutraliser is
+// deliberately this narrow, so that a violation that only shows on, say, unicode names is NOT attributed to it.
+func isExoticName(n string) bool { return strings.ContainsAny(n, "#/~%") }
 
 // neutraliseRename consistently renames, in every document of the bundle, the definition names (and, with
 // props, the property names) selected by pred to fresh plain identifiers, rewriting $refs, required lists and
